@@ -60,9 +60,11 @@ theorem elevated_along {o o' : Obj K} {b b' : Basis K} {nc : ℕ} {tol : K} (hto
 
 /-- "`o'` evaluates like `o`" for curves over the bases `b`, `b'`: at every list of parameters
 admissible for both bases the two objects return the same tensor (`tensor=True`) and the same
-value (`tensor=False`). -/
+value (`tensor=False`); for a non-periodic basis the list must be non-empty (the real code raises
+`ValueError` for `[]`). -/
 def SameEvalCurve (tol : K) (b b' : Basis K) (o o' : Obj K) : Prop :=
   ∀ us : List K, (∀ u ∈ us, b.Admissible tol u) → (∀ u ∈ us, b'.Admissible tol u) →
+    (b.periodic < 0 ∨ b'.periodic < 0 → us ≠ []) →
     ∃ res, o.evaluate tol [us] true = .ok res ∧ res.shape = [us.length, o.dimension] ∧
       o'.evaluate tol [us] true = .ok res ∧
       o'.evaluate tol [us] false = o.evaluate tol [us] false
